@@ -159,6 +159,8 @@ type jobReport struct {
 	Validated  int              `json:"native_validated"`
 	Mismatches int              `json:"native_mismatches"`
 	Skipped    string           `json:"skipped,omitempty"`
+	CrossChk   int64            `json:"cross_checked_queries,omitempty"`
+	CrossBad   int64            `json:"cross_check_disagreements,omitempty"`
 }
 
 func runProperty(verifDir string, spec *PropSpec, tier string, seed int64, workers int) int {
@@ -187,6 +189,7 @@ func runProperty(verifDir string, spec *PropSpec, tier string, seed int64, worke
 	var totalPaths, totalQueries, totalSolverQ int64
 	var solverTime time.Duration
 	allExhausted := true
+	var crossChecked, crossBad int64
 	type smp struct {
 		job int
 		s   symgo.Sample
@@ -260,6 +263,9 @@ func runProperty(verifDir string, spec *PropSpec, tier string, seed int64, worke
 		rep.SolverSec, rep.WallSec = res.SolverTime.Seconds(), res.Wall.Seconds()
 		rep.Outcomes, rep.Clauses, rep.Unsupp, rep.Panics, rep.Known, rep.NewViol = res.Outcomes, res.ClauseReach, res.Unsupported, res.PanicMsgs, res.KnownHits, res.NewViol
 		rep.MaxSteps = res.MaxSteps
+		rep.CrossChk, rep.CrossBad = res.CrossChecked, res.CrossDisagree
+		crossChecked += res.CrossChecked
+		crossBad += res.CrossDisagree
 		if res.CertSum != nil {
 			rep.CertSum = res.CertSum.RatString()
 			rep.CertUncnt = res.CertUncounted
@@ -392,6 +398,9 @@ func runProperty(verifDir string, spec *PropSpec, tier string, seed int64, worke
 	for _, l := range violLines {
 		fmt.Println(l)
 	}
+	if crossBad > 0 && engineTrouble == "" {
+		engineTrouble = fmt.Sprintf("%d solver verdicts were contradicted by z3 5.1 / cvc5 (see CROSS-DISAGREE lines)", crossBad)
+	}
 	if mismatches > 0 && engineTrouble == "" {
 		engineTrouble = fmt.Sprintf("%d sampled paths disagree with the native build", mismatches)
 	}
@@ -433,6 +442,8 @@ func runProperty(verifDir string, spec *PropSpec, tier string, seed int64, worke
 		"native_mismatches":             mismatches,
 		"known_findings_matched":        knownList,
 		"skipped_units":                 skippedUnits,
+		"cross_checked_queries":         crossChecked,
+		"cross_check_disagreements":     crossBad,
 		"engine_trouble":                engineTrouble,
 	}
 	ev := map[string]any{
